@@ -280,19 +280,22 @@ def compInFrag : Comp → Bool
       | _, _, _, _ => false
   | .hyphen a b => a.isFull && b.isFull
 
-/-- textual conditions of the fragment: the only whitespace is ' ', never directly
-    after an operator character; wildcards are written `N.x` / `N.M.x` / `*` -/
-def textInFrag : Text → Bool → Bool
+/-- textual conditions of the fragment: the only whitespace is ' ' (also after an operator character: ">= 1.0.0");
+    wildcards are written `N.x` / `N.*` / `N.M.x` / `N.M.*` / `*` / `x` -/
+def textInFragAux : Text → Nat → Bool
   | [], _ => true
-  | c :: cs, afterOp =>
-    if isWhite c then (c == ' ' && !afterOp) && textInFrag cs false
-    else textInFrag cs (isOpChar c)
+  | c :: cs, st =>          -- st: 0 = plain, 1 = right after an operator character, 2 = after an operator and blanks
+    if isWhite c then c == ' ' && textInFragAux cs (if st == 0 then 0 else 2)
+    else if isOpChar c then st != 2 && textInFragAux cs 1     -- "> =1.2.3": an operator after operator + blank is outside
+    else textInFragAux cs 0
+
+def textInFrag (t : Text) (_ : Bool) : Bool := textInFragAux t 0
 
 /-- wildcard forms the code implements: `N.x`, `N.X`, `N.M.x`, `N.M.X` as a whole AND-term -/
 def isCodeWildcard (tok : Text) : Bool :=
   match splitChar '.' tok with
-  | [a, x] => (numComp a).any (·.2.isEmpty) && (x == ['x'] || x == ['X'])
-  | [a, b, x] => (numComp a).any (·.2.isEmpty) && (numComp b).any (·.2.isEmpty) && (x == ['x'] || x == ['X'])
+  | [a, x] => (numComp a).any (·.2.isEmpty) && (x == ['x'] || x == ['X'] || x == ['*'])
+  | [a, b, x] => (numComp a).any (·.2.isEmpty) && (numComp b).any (·.2.isEmpty) && (x == ['x'] || x == ['X'] || x == ['*'])
   | _ => false
 
 /-- Fragment on which the code is claimed to agree with the reference semantics:
@@ -307,8 +310,8 @@ def inFrag (spec : Text) : Bool :=
     match parseHyphen part with
     | some h => compInFrag h && (wsTokens part).length == 3
     | none =>
-      (wsTokens part).all fun tok =>
-        isCodeWildcard tok || tok == ['*'] ||
+      (wsTokens (trimAfterOps part false)).all fun tok =>
+        isCodeWildcard tok || tok == ['*'] || tok == ['x'] || tok == ['X'] ||
         match parseComp tok with
         | some (.cmp op p) => p.isFull && compInFrag (.cmp op p)
         | _ => false
